@@ -16,7 +16,7 @@ RULE = (
     "minutes; 60 seconds; all 366 days of 2024 and 365 of 2023 (month, day, day-of-year, weekday, week-of-month/year, nth weekday); "
     "years {1, 99, 100, 999, 1000, 1900, 1999, 2000, 2001, 2038, 2100, 9999}; sub-seconds {0,1,9,10,99,100000,123456,999999} us; one "
     "directive per column through set_cell_formatting(..., 'datetime'), read after save+reopen. Compositions: Hypothesis lists of "
-    "directives separated by non-letter literals, and (via add_custom_format(type='datetime')) quoted text incl. ''. Durations: all 21 "
+    "directives separated by literals (punctuation, digits, non-ASCII letters), and quoted text incl. '' both via add_custom_format(type='datetime') and via the validated public route; every composition is read on the open document and after reload. Durations: all 21 "
     "(largest, smallest) unit pairs x 3 styles x explicit/automatic units (126 format records) on values 0..10 years at millisecond "
     "resolution concentrated on unit boundaries +-1 ms. Oracle: documented meaning per directive as calendar arithmetic (vf/dtfmt.py; "
     "where documentation and Numbers-authored workbooks disagree the documented set is accepted), concatenation for compositions; a "
@@ -118,7 +118,8 @@ def check_field(ctx, field, directives=None):
     ctx.sample({"field": field, "directives": directives, "first": [rows[0].isoformat(), grid[0]], "last": [rows[-1].isoformat(), grid[-1]]})
 
 
-LITERALS = ["-", "/", ":", ", ", " ", ".", " @ ", "  ", "(", ")", "#", "1", "2024", "+", "_", "!", "%", ";", "=", "&", "~", "|"]
+LITERALS = ["-", "/", ":", ", ", " ", ".", " @ ", "  ", "(", ")", "#", "1", "2024", "+", "_", "!", "%", ";", "=", "&", "~", "|",
+            "年", "月", "日", " à ", "時", "é", " г. "]
 QUOTED = ["at", "o'clock", "h", "Day", "yyyy", " of ", "T", "Z", "a", "it''s", "week", "d.M.", "x'y'z"]
 
 
@@ -172,17 +173,19 @@ def check_compositions(ctx, items, quoted):
                 for i, (parts, dj) in enumerate(items):
                     f = format_string(parts)
                     t.write(i, 0, datetime(*dj))
-                    if quoted:
+                    if quoted == "custom" or quoted is True:
                         cf = doc.add_custom_format(name=f"c{i}", type="datetime", format=f)
                         t.set_cell_formatting(i, 0, "custom", format=cf)
-                    else:
+                    else:  # the public route, with its validation of the directives (quoted text included when quoted == "public")
                         t.set_cell_formatting(i, 0, "datetime", date_time_format=f)
+                open_texts = [t.cell(i, 0).formatted_value for i in range(len(items))]
                 doc.save(tmp / "c.numbers")
-                return Document(tmp / "c.numbers")
+                return Document(tmp / "c.numbers"), open_texts
 
-        d2 = ctx.guard(("C14", "composition_build"), case, build)
-        if d2 is None:
+        res = ctx.guard(("C14", "composition_build", str(quoted)), case, build)
+        if res is None:
             return
+        d2, open_texts = res
         t2 = d2.sheets[0].tables[0]
         for i, (parts, dj) in enumerate(items):
             ctx.ev()
@@ -192,10 +195,11 @@ def check_compositions(ctx, items, quoted):
             if got is None:
                 continue
             # the text must be a concatenation of: literal/quoted text unchanged, each directive one of its accepted renderings
-            if not matches(got, parts, dt):
-                want = "".join(text if k != "d" else "{" + "|".join(sorted(dtfmt.expected(text, dt))) + "}" for k, text in parts)
-                ctx.fail(("C14", "composition", "quoted" if quoted else "plain"), sub,
-                         f"format {format_string(parts)!r} on {dt.isoformat()} renders {got!r}, expected the concatenation {want!r}")
+            for where, text in (("reloaded", got), ("open", open_texts[i])):
+                if not matches(text, parts, dt):
+                    want = "".join(t_ if k != "d" else "{" + "|".join(sorted(dtfmt.expected(t_, dt))) + "}" for k, t_ in parts)
+                    ctx.fail(("C14", "composition", "quoted" if quoted else "plain", where), sub,
+                             f"format {format_string(parts)!r} on {dt.isoformat()} renders {text!r} on the {where} document, expected the concatenation {want!r}")
             if len(parts) >= 2:
                 ctx.nt((format_string(parts), dj))
         ctx.sample({"format": format_string(items[0][0]), "dt": items[0][1]}, every=3)
@@ -290,7 +294,7 @@ def tasks(tier, seed):
     t = [("field", {"field": f}) for f in ("hour", "minute", "second", "year", "subsecond")]
     t += [("field_day", {"part": p}) for p in range(4)]
     for k in range(8 if tier == "quick" else 16):
-        t.append(("compositions", {"n": 300 if tier == "quick" else 1500, "quoted": k % 2 == 1, "seed": derive_seed(seed, "c14c", k)}))
+        t.append(("compositions", {"n": 300 if tier == "quick" else 1500, "quoted": [False, "custom", False, "public"][k % 4], "seed": derive_seed(seed, "c14c", k)}))
     for k in range(16 if tier == "quick" else 64):
         t.append(("durations", {"n": 60 if tier == "quick" else 160, "seed": derive_seed(seed, "c14d", k)}))
     return t
